@@ -4,7 +4,7 @@
    certificates of Proofs/ on the model's own output.
    A tensor is a list of rows (a 1-D vector of length n is n rows of length 1). *)
 From Coq Require Import List Arith ZArith QArith Qabs Bool.
-From TLV Require Import Base.Ops Model.Prox Corr.Common.
+From TLV Require Import Base.Ops Model.Prox Model.ProxDispatch Corr.Common.
 Import ListNotations.
 
 Definition M := list (list Q).
@@ -16,7 +16,22 @@ Inductive op :=
 | OHard (k : nat) | ONormSparsity (k : nat) (s : Q) | ONormalize
 | OIdentity                          (* proximal_operator with no constraint registered for the selected mode *)
 | OSvt (t : Q) (U : M) (s : list Q) (V : M)   (* U, s, V : the answer of tl.truncated_svd on the input (tape) *)
-| OProcrustes (U : M) (s : list Q) (V : M).
+| OProcrustes (U : M) (s : list Q) (V : M)
+(* proximal_operator(tensor, <keyword arguments>, n_const, order): the keyword arguments as written (constraint number, dict / list /
+   scalar value); the operator and its parameter are selected by the model of validate_constraints; aux = norm tape of that operator *)
+| ORouted (n_const order : nat) (specs : list (nat * cspec Q)) (aux : Q).
+
+Definition op_of (c : nat) (p aux : Q) : op :=
+  match c with
+  | 0 => ONonneg | 1 => OSoft p | 2 => OL2 p aux | 3 => OL2sq p | 4 => OUnimodal | 5 => ONormalize | 6 => OSimplex p
+  | 7 => ONormSparsity (Z.to_nat (Qnum p)) aux | 8 => OSoftSparsity p | 9 => OSmooth p | 10 => OMonotone false
+  | 11 => OHard (Z.to_nat (Qnum p)) | _ => OIdentity
+  end%nat.
+Definition resolve (o : op) : op :=
+  match o with
+  | ORouted n ord specs aux => match validate n ord specs with Some (c, p) => op_of c p aux | None => OIdentity end
+  | _ => o
+  end.
 
 Definition run (o : op) (rows : M) : M :=
   match o with
@@ -36,6 +51,7 @@ Definition run (o : op) (rows : M) : M :=
   | OIdentity => rows
   | OSvt t U s V => svd_thresholding_with Qops U s V t
   | OProcrustes U s V => procrustes_with Qops U V
+  | ORouted _ _ _ _ => rows        (* never reached: cases are resolved first *)
   end.
 
 Fixpoint rows_close (atol rtol : Q) (a b : M) : bool :=
@@ -99,7 +115,8 @@ Definition uni_ok (atol rtol eps : Q) (rows out : M) : bool :=
 (* case: id, operator, input rows, implementation's output rows, atol, rtol *)
 Definition case := (nat * op * M * M * Q * Q)%type.
 Definition agree (c : case) : bool :=
-  let '(_, o, rows, out, atol, rtol) := c in
+  let '(_, o0, rows, out, atol, rtol) := c in
+  let o := resolve o0 in
   model_cert atol rtol o rows &&
   match o with
   | OHard k => same_shape rows out && valid_ht Qops k (concat rows) (concat out)
